@@ -21,7 +21,7 @@ theorem sim_setVar {s : St} (hinv : Inv s) (x : Nat) (r : RV) : SimOpt s (.setVa
     obtain ⟨ca, cb, cc⟩ := clone_aids hinv v n1 hle hin
     have hstep : stepOpt .fixed s (.setVar x r) =
         some { (({ s with next := n1 } : St).setVar x (cloneOnStore v n1).1) with next := (cloneOnStore v n1).2 } := by
-      simp [stepOpt, h1]
+      simp [stepOpt, h1, show Cfg.fixed.copyCallResult = true from rfl]
     rw [hstep]
     refine ⟨?_, ?_⟩
     · cases hc : s.names[x]? with
